@@ -305,3 +305,198 @@ for _f1 in _SIDES:
                 ensures=[("one decider placement of its own whose rows are the node's rows in order: comparator, connective and both sides", _multi_post)],
                 uses=_USES, dynamic_types=_SELF_T, properties=("C01", "C05", "C07"), min_obligations=1, no_replay=True,
                 note=f"rows ({_f1} CMP {_s1}), ({_f2} CMP {_s2})"))
+
+
+# ---------------------------------------------------------------------------------------------------------------------
+# _add_signal_sink: a consumer becomes a reader of a signal reference unless that reference's producer is not materialised
+# (an inlined constant has no combinator to wire from); of a bundle reference always; of an integer never.
+# _place_entity_output / _place_entity_prop_read: the node reading an entity's output is sourced by THAT entity.
+# ---------------------------------------------------------------------------------------------------------------------
+GSINK, GSRC = [], []
+
+
+def _g_reset(a):
+    GSINK.clear(), GSRC.clear()
+    return True
+
+
+g_add_sink = Contract(qualname="dsl_compiler/src/layout/signal_graph.py::SignalGraph.add_sink", params={"args": _OPQ}, effect=lambda ex, a: GSINK.append(tuple(a.args)), verify=False,
+                      note="records the reader")
+g_set_source = Contract(qualname="dsl_compiler/src/layout/signal_graph.py::SignalGraph.set_source", params={"args": _OPQ}, effect=lambda ex, a: GSRC.append(tuple(a.args)), verify=False,
+                        note="records the source")
+
+
+def _sink_post(a, res):
+    v = a.value_ref
+    if not isinstance(v, SObj):
+        return not GSINK
+    added = len(GSINK) == 1 and GSINK[0][0] is v.source_id and GSINK[0][1] is a.consumer_id
+    if "BundleRef" in v._cls_set:
+        return added
+    lk = a.self.signal_usage.lookups
+    usage = lk[-1][1] if lk else None
+    if usage is None:
+        return added
+    return And(usage.should_materialize, added) if GSINK else Not(usage.should_materialize)
+
+
+CONTRACTS.append(Contract(
+    qualname=EP + "_add_signal_sink",
+    params={"self": ty.TObj("EntityPlacer", only=("EntityPlacer",)), "value_ref": ty.TUnion((ty.Int, ty.TObj("SignalRef", only=("SignalRef",)), ty.TObj("BundleRef", only=("BundleRef",)))),
+            "consumer_id": ty.Str},
+    requires=[("(reset capture)", _g_reset)],
+    ensures=[("reader of a materialised signal reference or of any bundle reference; never of an integer or of an unmaterialised (inlined) producer", _sink_post)],
+    uses={"opaque.add_sink": g_add_sink}, dynamic_types={"self": {"signal_graph": ty.TOpaque("graph"), "signal_usage": _USAGE}},
+    properties=("C01", "C02", "C07"), min_obligations=3, no_replay=True))
+
+for _fn, _cls in (("_place_entity_output", "IREntityOutput"), ("_place_entity_prop_read", "IREntityPropRead")):
+    CONTRACTS.append(Contract(
+        qualname=EP + _fn, params={"self": ty.TObj("EntityPlacer", only=("EntityPlacer",)),
+                                   "op": ty.TObj(_cls, only=(_cls,), ftypes=(("node_id", ty.Str), ("entity_id", ty.Str), ("property_name", ty.Str)))},
+        requires=[("(reset capture)", _g_reset)],
+        ensures=[("the reading node is sourced by the entity it reads", lambda a, res: len(GSRC) == 1 and GSRC[0][0] is a.op.node_id and GSRC[0][1] is a.op.entity_id and not GSINK)],
+        uses={"opaque.set_source": g_set_source}, dynamic_types={"self": {"signal_graph": ty.TOpaque("graph"), "_entity_property_signals": ty.TDict(ty.Str, ty.Str)}},
+        properties=("C06", "C02"), min_obligations=1, no_replay=True))
+CONTRACTS += [g_add_sink, g_set_source]
+
+
+# ---------------------------------------------------------------------------------------------------------------------
+# _place_wire_merge and cleanup_unused_entities, evaluated on the REAL methods with real plan / graph objects over enumerated
+# boxes (bounded stand-ins):
+#   _place_wire_merge        the junction lists the merge's sources in order; every source's PHYSICAL producer (the entity the
+#                            signal graph resolves its node to) is recorded as a member of this merge; the merge is its own source
+#                            and a reader of every materialised source
+#   cleanup_unused_entities  exactly the deciders whose comparison was inlined into an entity disappear — placement, wires that
+#                            touch them, graph edges from or to them — and nothing else
+# ---------------------------------------------------------------------------------------------------------------------
+WMQ = "dsl_compiler/src/layout/entity_placer.py::EntityPlacer._place_wire_merge"
+CEQ = "dsl_compiler/src/layout/entity_placer.py::EntityPlacer.cleanup_unused_entities"
+
+
+def _wm_post(a, res):
+    me, op = a.self, a.op
+    sc = me._scenario
+    j = me._wire_merge_junctions.get(op.node_id)
+    ok = [j is not None and j["output_id"] == op.node_id and len(j["inputs"]) == len(op.sources) and all(x is y for x, y in zip(j["inputs"], op.sources))]
+    for src, phys in zip(op.sources, sc["physical"]):
+        ok.append(op.node_id in me._merge_membership.get(phys, set()))
+    ok.append(set(me._merge_membership) == set(sc["physical"]) | set(sc["prior_members"]))
+    ok.append(me.signal_graph.get_source(op.node_id) == op.node_id)
+    for src, mat in zip(op.sources, sc["materialised"]):
+        ok.append((op.node_id in me.signal_graph.iter_sinks(src.source_id)) == mat)
+    return all(ok)
+
+
+place_wire_merge = Contract(qualname=WMQ, params={"self": ty.TOpaque("placer"), "op": ty.TOpaque("merge")},
+                            ensures=[("junction = the sources in order; membership keyed by the physical producer; own source; reader of every materialised source", _wm_post)],
+                            verify=False, properties=("C02", "C12"), note="evaluated on the real method over an enumerated box (bounded stand-in)")
+
+
+def wire_merge_arg_sets():
+    import itertools
+    from dsl_compiler.src.ir.nodes import IRWireMerge, SignalRef, BundleRef
+    from dsl_compiler.src.layout.entity_placer import EntityPlacer
+    from dsl_compiler.src.layout.signal_graph import SignalGraph
+
+    class _Usage:
+        def __init__(self, m):
+            self.should_materialize = m
+
+    out = []
+    # each source: (kind, resolved by the graph to another entity?, materialised?)
+    kinds = [("sig", False, True), ("sig", True, True), ("sig", False, False), ("bundle", True, True), ("bundle", False, True)]
+    for n in (2, 3):
+        for combo in itertools.product(kinds, repeat=n):
+            for prior in (False, True):
+                g = SignalGraph()
+                ep = object.__new__(EntityPlacer)
+                ep.signal_graph, ep._wire_merge_junctions, ep._merge_membership, ep.signal_usage = g, {}, {}, {}
+                op = IRWireMerge("merge_1", "signal-A")
+                physical, mats = [], []
+                for i, (kind, resolved, mat) in enumerate(combo):
+                    nid = f"node_{i}"
+                    ref = SignalRef("signal-A", nid) if kind == "sig" else BundleRef({"signal-A"}, nid)
+                    op.add_source(ref)
+                    if resolved:
+                        g.set_source(nid, f"entity_{i}")
+                    physical.append(f"entity_{i}" if resolved else nid)
+                    if kind == "sig":
+                        ep.signal_usage[nid] = _Usage(mat)
+                    mats.append(mat if kind == "sig" else True)
+                prior_members = []
+                if prior:
+                    ep._merge_membership[physical[0]] = {"merge_0"}
+                    ep._merge_membership["unrelated"] = {"merge_0"}
+                    prior_members = [physical[0], "unrelated"]
+                ep._scenario = {"physical": physical, "materialised": mats, "prior_members": prior_members}
+                out.append({"self": ep, "op": op})
+    return out
+
+
+def _ce_post(a, res):
+    me = a.self
+    sc = me._scenario
+    removed = set(sc["removed"])
+    plan = me.plan
+    ok = [set(plan.entity_placements) == set(sc["all"]) - removed]
+    ok.append({(w.source_entity_id, w.sink_entity_id) for w in plan.wire_connections} == {(s, t) for (s, t) in sc["wires"] if s not in removed and t not in removed})
+    edges = {(sig, s, t) for sig, s, t in me.signal_graph.iter_source_sink_pairs()}
+    ok.append(edges == {(sig, s, t) for (sig, s, t) in sc["edges"] if s not in removed and t not in removed})
+    return all(ok)
+
+
+cleanup_entities = Contract(qualname=CEQ, params={"self": ty.TOpaque("placer")},
+                            ensures=[("exactly the inlined comparison deciders, their wires and their graph edges are removed", _ce_post)],
+                            verify=False, properties=("C06",), note="evaluated on the real method over an enumerated box (bounded stand-in)")
+CONTRACTS += [place_wire_merge, cleanup_entities]
+
+
+def cleanup_entities_arg_sets():
+    import itertools
+    from dsl_compiler.src.layout.entity_placer import EntityPlacer
+    from dsl_compiler.src.layout.layout_plan import LayoutPlan, WireConnection
+    from dsl_compiler.src.layout.signal_graph import SignalGraph
+
+    class _Diag:
+        def info(self, *a, **k):
+            pass
+        warning = error = info
+
+    class _NoMemory:
+        _modules = {}
+
+        def cleanup_unused_gates(self, plan, graph):
+            pass
+
+    out = []
+    # two lamps; each is driven by: an inlined comparison (its decider goes), a plain signal, or nothing
+    for drive in itertools.product(("inlined", "signal", "none"), repeat=2):
+        plan, g = LayoutPlan(), SignalGraph()
+        ids, removed, wires, edges = [], [], [], []
+        plan.create_and_add_placement(ir_node_id="input", entity_type="constant-combinator", position=None, footprint=(1, 2), role="literal", debug_info={})
+        ids.append("input")
+        for i, d in enumerate(drive):
+            lamp, dec = f"lamp_{i}", f"cmp_{i}"
+            plan.create_and_add_placement(ir_node_id=dec, entity_type="decider-combinator", position=None, footprint=(1, 2), role="decider", debug_info={})
+            props = {}
+            if d == "inlined":
+                props = {"enable": {"type": "inline_comparison", "comparison_data": {"left_signal": "signal-A", "comparator": ">", "right_constant": 5, "source_node_id_to_remove": dec}}}
+                removed.append(dec)
+            elif d == "signal":
+                props = {"enable": {"type": "signal", "signal_ref": None}}
+            plan.create_and_add_placement(ir_node_id=lamp, entity_type="small-lamp", position=None, footprint=(1, 1), role="user_entity", debug_info={}, property_writes=props)
+            ids += [dec, lamp]
+            for s, t in (("input", dec), (dec, lamp), ("input", lamp)):
+                plan.add_wire_connection(WireConnection(source_entity_id=s, sink_entity_id=t, signal_name="signal-A", wire_color="red"))
+                wires.append((s, t))
+            g.set_source("input", "input")
+            g.add_sink("input", dec)
+            g.add_sink("input", lamp)
+            g.set_source(dec, dec)
+            g.add_sink(dec, lamp)
+            edges += [("input", "input", dec), ("input", "input", lamp), (dec, dec, lamp)]
+        ep = object.__new__(EntityPlacer)
+        ep.plan, ep.signal_graph, ep.diagnostics, ep.memory_builder = plan, g, _Diag(), _NoMemory()
+        ep._scenario = {"all": ids, "removed": removed, "wires": wires, "edges": edges}
+        out.append({"self": ep})
+    return out
